@@ -515,6 +515,8 @@ pub fn render_case(c: &Case) -> String {
         s.push_str("trap : USR1\n");
     }
     render_block(&c.nodes, &mut s, "\n");
+    // whatever the program did, the shell ends with the descriptors it began with
+    s.push_str("fds\n");
     s
 }
 
@@ -744,6 +746,7 @@ pub fn expect(c: &Case) -> Expect {
         ..Default::default()
     };
     eval_block(&c.nodes, &mut cx);
+    cx.out.push("fds: 0 1 2".into());
     let mut stdout = cx.out.join("\n");
     if !cx.out.is_empty() {
         stdout.push('\n');
@@ -1152,9 +1155,7 @@ fn run_one(c: &Case, exp: &Expect, cfg: &SimConfig, decider: Decider) -> (Observ
 }
 
 fn spec_with_fds(c: &Case) -> ScriptSpec {
-    let mut s = spec_of(c);
-    s.script.push_str("fds\n");
-    s
+    spec_of(c)
 }
 
 fn fds_line(stdout: &str) -> Option<&str> {
